@@ -10,23 +10,22 @@ import EdsProps.C10
   as existence of a stored pod with that name having the property (with pod names distinct within
   the namespace this is the pod the API call hits).
 
-    10 `C12_ers_deletes_owned`      — every pod named in `cleanupDeletes ++ deletes ++ labelAdds` is a
-                                      listed pod (`ersPods d st`): stored, in the EDS's namespace, and
-                                      carrying the EDS's name label or owned by the DaemonSet named by
-                                      the old-daemonset annotation.                   [full strength]
-       `C12_ers_writes_owned_partial` — the same list plus `labelRemoves`, where the last disjunct for
-                                      a `labelRemoves` pod is only: same namespace, carries *this
-                                      replica set's* name label and the canary label.  The requested
-                                      statement is FALSE for `labelRemoves`: the canary-label clean-up
-                                      lists pods by namespace + ERS-name label + canary label
-                                      (`canaryLabelled`), not through `ersPods`, so a pod without the
-                                      EDS name label is unlabelled too (counterexample below).
-       `C12_ers_writes_owned`       — the requested statement for all four lists under the hypothesis
-                                      `hlab`: stored pods of the namespace carrying this replica set's
-                                      name label also carry the EDS's name label (true of every pod
-                                      the controller creates, `C12_ers_creates_owned`).
+    10 `C12_ers_writes_owned`       — every pod named in `cleanupDeletes ++ deletes ++ labelAdds ++
+                                      labelRemoves` is a stored pod in the EDS's namespace carrying
+                                      the EDS's name label or owned by the DaemonSet named by the
+                                      old-daemonset annotation.        [full strength, no hypothesis
+                                      beyond `ersOwner rs st = some d`]
+       `C12_ers_deletes_owned`      — the first three lists: these pods are even listed pods
+                                      (`ersPods d st`).
+       `C12_ers_label_removes_owned` — `labelRemoves`: namespace, EDS name label, this replica set's
+                                      name label and the canary label.
        `C12_ers_creates_owned`, `C12_ers_creates_eds_label` — created pods: namespace, both name
                                       labels, controller owner reference.            [full strength]
+       History: against the previous model (`canaryLabelled` selecting by namespace + ERS-name label +
+       canary label only) the statement was false for `labelRemoves` and a `…_partial` variant was
+       proved here; the defect was repaired in the controller (the clean-up list now also requires
+       the EDS name label), so the `_partial` theorem and its `hlab` hypothesis are gone.  The former
+       counterexample (`stray`) is kept below as a regression example: it is no longer unlabelled.
     11 `C12_ers_counts_own`         — frame: two stores with the same EDSs, nodes, settings and the same
                                       `ersPods d ·` yield the same writes, status and requeue
                                       decision, `labelRemoves` excepted (it reads `canaryLabelled`).
@@ -112,42 +111,43 @@ theorem C12_ers_deletes_owned (h : ersOwner rs st = some d) :
   obtain ⟨a, b, c⟩ := mem_ersPods hp
   exact ⟨p, a, hpn, b, c⟩
 
-/-- **All four lists** — strongest statement true of the model: a pod named in `labelRemoves` is only
-known to live in the namespace and to carry this replica set's name label and the canary label. -/
-theorem C12_ers_writes_owned_partial (h : ersOwner rs st = some d) :
+/-- pods whose canary label is removed: namespace, all three labels. -/
+theorem C12_ers_label_removes_owned (h : ersOwner rs st = some d) :
+    ∀ name ∈ (reconcileErs rs st released aff now).labelRemoves,
+      ∃ p ∈ st.pods, p.name = name ∧ p.ns = d.ns ∧
+        SMap.get? p.labels K.edsNameLabel = some d.name ∧
+        SMap.get? p.labels K.ersNameLabel = some rs.name ∧
+        SMap.get? p.labels K.canaryLabel = some "true" := by
+  intro name hn
+  obtain ⟨p, hp, hpn, hns, hl, hc, he⟩ := (C04_label_scope rs st released aff now d h).2.1 name hn
+  exact ⟨p, hp, hpn, by rw [hns, (ersOwner_some h).2.1], he, hl, hc⟩
+
+/-- **Writes are owned.**  Every pod named in any of the four pod-write lists of a sync is a stored
+pod of the EDS's namespace that carries the EDS's name label or is owned by the DaemonSet named by
+the old-daemonset annotation. -/
+theorem C12_ers_writes_owned (h : ersOwner rs st = some d) :
     ∀ name ∈ (reconcileErs rs st released aff now).cleanupDeletes ++
              (reconcileErs rs st released aff now).deletes ++
              (reconcileErs rs st released aff now).labelAdds ++
              (reconcileErs rs st released aff now).labelRemoves,
       ∃ p ∈ st.pods, p.name = name ∧ p.ns = d.ns ∧
-        ((SMap.get? p.labels K.edsNameLabel = some d.name ∨
-          ∃ dsName, SMap.get? d.annotations K.oldDaemonsetAnnot = some dsName ∧
-            p.owners.any (fun o => o.kind == "DaemonSet" && o.name == dsName) = true) ∨
-         (SMap.get? p.labels K.ersNameLabel = some rs.name ∧
-          SMap.get? p.labels K.canaryLabel = some "true")) := by
+        (SMap.get? p.labels K.edsNameLabel = some d.name ∨
+         ∃ dsName, SMap.get? d.annotations K.oldDaemonsetAnnot = some dsName ∧
+           p.owners.any (fun o => o.kind == "DaemonSet" && o.name == dsName) = true) := by
   intro name hn
   rcases List.mem_append.mp hn with hn | hn
-  · obtain ⟨p, hp, hpn, hns, ho⟩ := C12_ers_deletes_owned rs st released aff now d h name hn
-    exact ⟨p, hp, hpn, hns, Or.inl ho⟩
-  · obtain ⟨p, hp, hpn, hns, hl, hc⟩ := (C04_label_scope rs st released aff now d h).2.1 name hn
-    exact ⟨p, hp, hpn, by rw [hns, (ersOwner_some h).2.1], Or.inr ⟨hl, hc⟩⟩
+  · exact C12_ers_deletes_owned rs st released aff now d h name hn
+  · obtain ⟨p, hp, hpn, hns, he, _⟩ := C12_ers_label_removes_owned rs st released aff now d h name hn
+    exact ⟨p, hp, hpn, hns, Or.inl he⟩
 
-/-- **Writes are owned**, as requested, under `hlab`: in this namespace the replica set's name label
-implies the EDS's name label (both are put on every pod the controller creates, and the replica set
-name embeds the EDS name). -/
-theorem C12_ers_writes_owned (h : ersOwner rs st = some d)
-    (hlab : ∀ p ∈ st.pods, p.ns = rs.ns → SMap.get? p.labels K.ersNameLabel = some rs.name →
-              SMap.get? p.labels K.edsNameLabel = some d.name) :
+/-- the same with the predicate folded. -/
+theorem C12_ers_writes_ownedByEds (h : ersOwner rs st = some d) :
     ∀ name ∈ (reconcileErs rs st released aff now).cleanupDeletes ++
              (reconcileErs rs st released aff now).deletes ++
              (reconcileErs rs st released aff now).labelAdds ++
              (reconcileErs rs st released aff now).labelRemoves,
-      ∃ p ∈ st.pods, p.name = name ∧ ownedByEds d p := by
-  intro name hn
-  rcases List.mem_append.mp hn with hn | hn
-  · exact C12_ers_deletes_owned rs st released aff now d h name hn
-  · obtain ⟨p, hp, hpn, hns, hl, _⟩ := (C04_label_scope rs st released aff now d h).2.1 name hn
-    exact ⟨p, hp, hpn, by rw [hns, (ersOwner_some h).2.1], Or.inl (hlab p hp hns hl)⟩
+      ∃ p ∈ st.pods, p.name = name ∧ ownedByEds d p :=
+  C12_ers_writes_owned rs st released aff now d h
 
 /-- **Created pods are owned**: the replica set's namespace, both name labels (the EDS one copied from
 the replica set's own label), the replica set as only owner reference (`C10_meta`). -/
@@ -243,20 +243,22 @@ theorem C12_ers_counts_own_fields (rs : ERS) (st st' : ErsStore) (released : Str
 
 /-- the canary is over, `d-new` is the active replica set.  `stray` lives in the namespace, carries
 `d-new`'s name label and the canary label but NOT the EDS's name label (and no owner): it is not a
-listed pod, yet the canary-label clean-up removes its label. -/
+listed pod.  Before the repair the canary-label clean-up removed its label too; now it does not. -/
 def exPods12 : List Pod :=
   [exPod04 "new-1" "n1" "d-new" "new" true, exPod04 "stray" "n2" "d-new" "new" true false]
 
 example : (reconcileErs (exErs04 "d-new" "new") (exStore04 exPods12 false) (fun _ => true) true 100).labelRemoves
-    = ["new-1", "stray"] := by decide
-/-- `stray` is not owned in the sense of the requested statement: `C12_ers_writes_owned` without `hlab`
-is false. -/
+    = ["new-1"] := by decide
+example : "stray" ∉ (reconcileErs (exErs04 "d-new" "new") (exStore04 exPods12 false) (fun _ => true) true
+    100).labelRemoves := by decide
+/-- `stray` is indeed not owned: no EDS name label, no owner reference … -/
 example : ∀ p ∈ (exStore04 exPods12 false).pods, p.name = "stray" →
     SMap.get? p.labels K.edsNameLabel ≠ some (exEds04 false).name ∧ p.owners = [] := by decide
 example : (ersPods (exEds04 false) (exStore04 exPods12 false)).map (·.name) = ["new-1"] := by decide
-/-- it is left alone by every other write (it is not even listed, so `n2` gets a new pod). -/
+/-- … and it is left alone by every write (it is not even listed, so `n2` gets a new pod). -/
 example : (reconcileErs (exErs04 "d-new" "new") (exStore04 exPods12 false) (fun _ => true) true 100).deletes = [] ∧
     (reconcileErs (exErs04 "d-new" "new") (exStore04 exPods12 false) (fun _ => true) true 100).cleanupDeletes = [] ∧
+    (reconcileErs (exErs04 "d-new" "new") (exStore04 exPods12 false) (fun _ => true) true 100).labelAdds = [] ∧
     (reconcileErs (exErs04 "d-new" "new") (exStore04 exPods12 false) (fun _ => true) true 100).creates.map (·.1)
       = ["n2"] := by decide
 
